@@ -117,9 +117,16 @@ def main(tier, seed):
     if tier == 'quick':
         items = [it for it in items if not it.unit.desc_id.startswith(('f5_odd', 'f2_static', 'f2_derived', 'f4_tlv'))
                  or it.type in ('Opt24', 'One32')]
+    kept = []
     for it in items:
         it.K = 1
-        it.L = min(it.L, 6 if it.cls != 'cheap' else 9)
+        cap = 6 if it.cls != 'cheap' else 9
+        mn = max(it.mdl.min_len(x) for x in [it.type] + it.mdl.descendants(it.type))
+        if it.kind == 'c18d' and mn + 1 > cap:
+            continue            # no accepting input within the C18 bound: the harness would be vacuous
+        it.L = min(it.L, cap)
+        kept.append(it)
+    items = kept
     log(f'[C18] {len(items)} harnesses selected of {info["candidates"]} candidates')
     cov = kcheck.run_and_judge(PROP, tier, seed, items, info, out, replay_native, arms, own_prefixes=('C18:',),
                                extract=extract, inner_fn=venc.rf_text, runner_ops=LAW_OPS, harness_timeout=200 if tier == 'quick' else 600)
